@@ -377,3 +377,140 @@ def o2_4_confirm(v, out):
         return (out.get('during_flush') != 'v', 'a get issued while the flush is writing the manifest returned %s (expected v)' % out.get('during_flush'))
     lost = out.get('after_fault') != 'v' or out.get('after_reopen') != 'v'
     return (lost, 'flush with an injected %s fault (hit: %s): get afterwards %s, after reopen %s (expected v both times)' % (v['replay'][1], out.get('fault_hit'), out.get('after_fault'), out.get('after_reopen')))
+
+
+# =============================================================== O11.1 remove_obsolete_files
+def o11_1_remove_obsolete(mir, tier):
+    """DB::remove_obsolete_files deletes exactly: WALs older than the version set's current WAL (except the one being compacted),
+    table / temp files that are neither live nor in use, manifests older than the current one - and nothing after a background error."""
+    fn = mir.method('DB', 'remove_obsolete_files')
+    res = Result('O11.1 DB::remove_obsolete_files deletes exactly the files nobody needs', [fn.path, 'remove_obsolete_files::{closure#0} (inlined)'],
+                 'directory listings by contract (quick: 1 WAL-dir file, 1 data-dir file, 2 main-dir files of the kinds expected there plus one foreign kind; thorough: 2/1/2 files of any parsed kind), free numbers; live set = {one free number}, '
+                 'tables_in_use = {one free number}; current / previous WAL numbers, the guarded curr_wal_file_number field and the manifest number free')
+    t0 = time.time()
+    from ..lib2 import install
+    kinds = ['WriteAheadLog', 'TableFile', 'ManifestFile', 'TempFile', 'CurrentFile', 'DBLockFile']
+    dirs = {'wal': 2, 'data': 1, 'main': 2} if tier == 'thorough' else {'wal': 1, 'data': 1, 'main': 2}
+    allowed = {'wal': kinds, 'data': kinds, 'main': kinds} if tier == 'thorough' else {'wal': ['WriteAheadLog', 'TableFile'], 'data': ['TableFile', 'WriteAheadLog'], 'main': ['ManifestFile', 'TempFile', 'CurrentFile']}
+    cw, pw, has_pw, field_cw, mf, live, inuse = BitVec('vs_curr_wal', 64), BitVec('vs_prev_wal', 64), Bool('has_prev_wal'), BitVec('guarded_curr_wal_file_number', 64), BitVec('manifest_number', 64), BitVec('live_table', 64), BitVec('table_in_use', 64)
+    for bad_state in (False, True):
+        S = install(lib.std_summaries()); P = S['$patterns']
+        P[GUARD] = lib.ptr_deref
+        files = {}
+        for d, n in dirs.items():
+            for i in range(n): files[(d, i)] = {'path': (d, i), 'num': BitVec('num_%s%d' % (d, i), 64), '__ty': 'PathBuf'}
+        def add(env, ev):
+            st = dict(env['$state']); st['events'] = st['events'] + [ev]; env['$state'] = st
+        # symbolic-number sets
+        P[r'HashSet::insert'] = lambda se, env, pc, r, x: (se.store(env, r, {'set': lib2_vals(se, env, r) + [se.deref(env, x) if isinstance(x, Ref) else x]}), lib.one(env, BoolVal(True)))[1]
+        P[r'HashSet::contains'] = lambda se, env, pc, r, x: lib.one(env, Or(*[(se.deref(env, x) if isinstance(x, Ref) else x) == y for y in lib2_vals(se, env, r)]) if lib2_vals(se, env, r) else BoolVal(False))
+        P[r'<HashSet<u64> as Clone>::clone'] = lib.clone_deep
+        P[r'<HashSet<u64> as IntoIterator>::into_iter'] = lambda se, env, pc, s_: lib.one(env, {'it': list(s_['set'])})
+        P[r'<std::collections::hash_set::IntoIter<u64> as Iterator>::next'] = lib.it_next
+        P[r'HashSet::len'] = lambda se, env, pc, r: lib.one(env, bv(len(lib2_vals(se, env, r))))
+        P[r'VersionSet::get_live_files'] = lambda se, env, pc, vs: lib.one(env, {'set': [live]})
+        P[r'VersionSet::get_curr_wal_number'] = lambda se, env, pc, vs: lib.one(env, cw)
+        P[r'VersionSet::maybe_prev_wal_number'] = lambda se, env, pc, vs: [(has_pw, Enum('Some', (pw,)), env['$state']), (Not(has_pw), Enum('None'), env['$state'])]
+        P[r'VersionSet::get_manifest_file_number'] = lambda se, env, pc, vs: lib.one(env, mf)
+        P[r'FileNameHandler::get_wal_dir'] = lambda se, env, pc, h: lib.one(env, {'dir': 'wal'})
+        P[r'FileNameHandler::get_data_dir'] = lambda se, env, pc, h: lib.one(env, {'dir': 'data'})
+        P[r'FileNameHandler::get_db_path'] = lambda se, env, pc, h: lib.one(env, {'dir': 'main'})
+        P[r'<Arc<dyn FileSystem> as Deref>::deref'] = lib.ident
+        P[r'<PathBuf as Deref>::deref'] = lib.ident
+        P[r'PathBuf::as_path'] = lib.ident
+        def list_dir(se, env, pc, fs, d):
+            dd = se.deref(env, d)['dir']
+            return lib.one(env, Enum('Ok', ([files[(dd, i)] for i in range(dirs[dd])],)))
+        P[r'<dyn FileSystem as FileSystem>::list_dir'] = list_dir
+        P[r'<dyn FileSystem as FileSystem>::is_dir'] = lambda se, env, pc, fs, p: lib.one(env, Enum('Ok', (BoolVal(False),)))
+        def file_type(se, env, pc, p):
+            f = se.deref(env, p) if isinstance(p, Ref) else p
+            outs = []
+            for k_ in allowed[f['path'][0]]:
+                st = dict(env['$state']); st['kinds'] = dict(st['kinds']); st['kinds'][f['path']] = k_
+                val = Enum(k_, (f['num'],) if k_ in ('WriteAheadLog', 'TableFile', 'ManifestFile', 'TempFile') else (), 'ParsedFileType')
+                if f['path'] in env['$state']['kinds'] and env['$state']['kinds'][f['path']] != k_: continue
+                outs.append((None, Enum('Ok', (val,)), st))
+            return outs
+        P[r'FileNameHandler::get_file_type_from_name'] = file_type
+        def cache_remove(se, env, pc, tc, n):
+            add(env, ('evict', n)); return [(None, (), env['$state'])]
+        P[r'TableCache::remove'] = cache_remove
+        def remove_file(se, env, pc, fs, p):
+            f = se.deref(env, p) if isinstance(p, Ref) else p
+            add(env, ('remove', f['path'])); return [(None, Enum('Ok', ((),)), env['$state'])]
+        P[r'<dyn FileSystem as FileSystem>::remove_file'] = remove_file
+        @lib.cps
+        def unlocked(se, env, pc, vals, cont):
+            guard, clo = vals
+            e = dict(env); add(e, ('unlock',))
+            def back(r, e2, pc2):
+                e3 = dict(e2); add(e3, ('relock',)); cont(r, e3, pc2)
+            lib.apply_closure(se, e, pc, clo, [], back)
+        P[r'parking_lot::lock_api::MutexGuard::unlocked_fair'] = unlocked
+        P[r'<Vec<PathBuf> as IntoIterator>::into_iter'] = lib.into_iter_owned
+        P[r'<std::vec::IntoIter<PathBuf> as Iterator>::next'] = lib.it_next
+        ex = Exec(mir, S, loop_bound=8, opaque_calls_ok=True)
+        ex.prune_key = None
+        def k(ret, env, pc, bad_state=bad_state, ex=ex):
+            evs = env['$state']['events']; kd = env['$state']['kinds']
+            removed = [e[1] for e in evs if e[0] == 'remove']
+            posts = []
+            if 'unlock' in [e[0] for e in evs]:
+                iu = [e[0] for e in evs].index('unlock')
+                posts.append(('a file is removed while the database mutex is still held / before the deletion list is complete', BoolVal(all(i > iu for i, e in enumerate(evs) if e[0] == 'remove'))))
+            for key, f in files.items():
+                kind = kd.get(key)
+                is_removed = BoolVal(key in removed)
+                if bad_state: spec = BoolVal(False)
+                elif kind == 'WriteAheadLog' and key[0] == 'wal': spec = And(ULT(f['num'], cw), Not(And(has_pw, f['num'] == pw)))
+                elif kind == 'TableFile' and key[0] == 'data': spec = And(f['num'] != live, f['num'] != inuse)
+                elif kind == 'ManifestFile' and key[0] == 'main': spec = ULT(f['num'], mf)
+                elif kind == 'TempFile' and key[0] == 'main': spec = And(f['num'] != live, f['num'] != inuse)
+                else: spec = BoolVal(False)
+                what = {'WriteAheadLog': 'write-ahead log', 'TableFile': 'table file', 'ManifestFile': 'manifest', 'TempFile': 'temp file'}.get(kind, 'file of another kind')
+                posts.append(('a %s that is still needed is deleted' % what if not bad_state else 'files are deleted although a background error is recorded', Or(Not(is_removed), spec)))
+                posts.append(('an obsolete %s is kept' % what, Or(is_removed, Not(spec))))
+            for label, post in posts:
+                ex.record_formula(label, pc, Not(post))
+                m = ex.model(Not(post), ULT(cw, bv(1000)), ULT(field_cw, bv(1000)), ULT(mf, bv(1000)), ULT(pw, bv(1000)), ULT(live, bv(1000)), ULT(inuse, bv(1000)), *[ULT(f['num'], bv(1000)) for f in files.values()])
+                if m is not None:
+                    toks = ['%s:%s:%d' % (key[0], kd.get(key, 'none'), mval(m, f['num'])) for key, f in files.items()]
+                    res.violations.append({'label': label, 'kinds': {str(a_): b_ for a_, b_ in kd.items()}, 'removed': [str(r_) for r_ in removed],
+                                           'replay': ['remove_obsolete', str(mval(m, cw)), str(mval(m, pw)) if mval(m, has_pw) else 'none', str(mval(m, field_cw)), str(mval(m, live)), str(mval(m, inuse)), '1' if bad_state else '0'] + toks})
+            res.cases['bad_state=%s' % bad_state] = res.cases.get('bad_state=%s' % bad_state, 0) + 1
+        g = mir.mk_struct('GuardedDbFields', maybe_bad_database_state=Enum('Some', (Opaque('error'),)) if bad_state else Enum('None'), tables_in_use={'set': [inuse]},
+                          version_set={'abstract': True, '__ty': 'VersionSet'}, curr_wal_file_number=field_cw)
+        env = {'$state': {'events': [], 'kinds': {}}, '$g': g, '$guard': Ref('$g'), '$fnh': {'abstract': True}, '$tc': {'abstract': True}}
+        ex.top(fn, [Ref('$guard'), 'fs', Ref('$fnh'), Ref('$tc')], env, [], k)
+        ex.bound_hits = []
+        res.absorb(ex)
+    res.wall_s = time.time() - t0
+    if res.violations: res.status = 'violation'
+    return res
+
+
+def lib2_vals(se, env, r):
+    v = se.deref(env, r) if isinstance(r, Ref) else r
+    if isinstance(v, dict) and 'set' in v: return v['set']
+    raise Inconclusive('expected a set, got %r' % (v,))
+
+
+def o11_1_confirm(v, out):
+    """Native: DB::remove_obsolete_files on a version set / guarded fields set up with the model's numbers and empty files of the model's kinds."""
+    if out.get('_rc') != 0: return (False, 'native run failed: %s' % out.get('_stderr', '')[-300:])
+    a = v['replay']; cw = int(a[1]); pw = None if a[2] == 'none' else int(a[2]); live, inuse, bad = int(a[4]), int(a[5]), a[6] == '1'
+    problems = []
+    remaining = set(out.get('remaining', '').split(',')) if out.get('remaining') else set()
+    for tok in a[7:]:
+        d, kind, num = tok.split(':'); num = int(num)
+        if kind in ('none', 'CurrentFile', 'DBLockFile'): continue
+        if (kind, d) not in (('WriteAheadLog', 'wal'), ('TableFile', 'data'), ('ManifestFile', 'main'), ('TempFile', 'main')): continue
+        if kind == 'WriteAheadLog': obsolete = num < cw and num != pw
+        elif kind == 'ManifestFile': obsolete = num < int(out.get('manifest_number', '0'))
+        else: obsolete = num not in (live, inuse)
+        if bad: obsolete = False
+        present = ('%s:%d' % (kind, num)) in remaining
+        if obsolete and present: problems.append('%s %d is obsolete but was kept' % (kind, num))
+        if not obsolete and not present: problems.append('%s %d is still needed but was deleted' % (kind, num))
+    return (bool(problems), '; '.join(problems) or 'native deletion matches the specification')
